@@ -37,9 +37,12 @@
    cache is a plain map here and is never evicted); `extract_objects` atomicity
    (C10); distributed compilation.  *)
 From Coq Require Import List NArith Bool.
+From Coq Require String.
+Import String.StringSyntax.
 From Sccache Require Import Base.Sx Model.Lru.
 Import ListNotations.
 Local Open Scope N_scope.
+Local Open Scope string_scope.
 
 Definition bytes := list N.
 
